@@ -9,7 +9,7 @@ list="$@"; [ -z "$list" ] && list=$(ls seeded)
 fail=0
 for s in $list; do
   prop=$(python3 -c "import json;print(json.load(open('/verif/seeded/$s/meta.json'))['property'])")
-  if ! grep -q "\"property_id\": \"$prop\"" MANIFEST.json 2>/dev/null; then echo "$s ($prop): property not claimed yet"; continue; fi
+  if ! python3 -c "import json,sys;sys.exit(0 if any(c['property_id']=='$prop' for c in json.load(open('/verif/MANIFEST.json'))['checks']) else 1)"; then echo "$s ($prop): property not claimed"; continue; fi
   wt=/tmp/selftest-$s; out=/tmp/selftest-out-$s
   rm -rf $wt $out; git -C /repo worktree prune
   git -C /repo worktree add -q --detach $wt HEAD || { echo "$s: cannot create worktree"; fail=1; continue; }
